@@ -15,7 +15,7 @@ import z3
 
 import spikeglx
 from pyvc.api import harness, bounded, property_meta, run_function
-from pyvc.core import SV, term, fresh_name
+from pyvc.core import SV, term, Unsupported, fresh_name
 from pyvc import arrays as A, fsmodel
 from pyvc.arrays import SArr
 from pyvc.interp import SObj
@@ -164,6 +164,29 @@ def h_read(H):
         it.ctx.oblige("read_samples.tuple", z3.BoolVal(isinstance(got, tuple) and len(got) == 2 and got[1] == "SYNC"), "post")
         same_array(it, "layout.read_samples", got[0], A.getitem(V, (slice(SV(a), SV(b)), ch)))
     S.explore(body)
+    # what a read returned stays what it was when the same reader reads again (same number of samples, other samples / another channel):
+    # results are the caller's own arrays
+    for kind in ("int_channel", "channel_slice"):
+        S3 = H.session(f"read.again.{kind}")
+
+        def body3(it, kind=kind):
+            obj, raw, order, s2v, ns, nc = mk_reader(it)
+            a, b, L, c1, c2 = z3.Ints("first second length c1 c2")
+            it.ctx.assume(z3.And(L >= 1, a >= 0, a + L <= ns, b >= 0, b + L <= ns, c1 >= 0, c1 < nc, c2 >= 0, c2 < nc))
+            cs1 = SV(c1) if kind == "int_channel" else slice(SV(c1), None)
+            cs2 = SV(c2) if kind == "int_channel" else slice(SV(c2), None)
+            r1 = run_function(it, spikeglx.Reader.read, [obj], {"nsel": slice(SV(a), SV(a + L)), "csel": cs1, "sync": False})
+            if not isinstance(r1, A.SArr):
+                raise Unsupported("read() of a sample slice did not return an array")
+            first = r1.snapshot()
+            shp = r1.shape
+            r2 = run_function(it, spikeglx.Reader.read, [obj], {"nsel": slice(SV(b), SV(b + L)), "csel": cs2, "sync": False})
+            idx = [z3.Int(f"q{k_}") for k_ in range(r1.ndim)]
+            rng_ = z3.And(*[z3.And(i_ >= 0, i_ < A.T(d_)) for i_, d_ in zip(idx, shp)])
+            it.ctx.oblige(f"read.again.first_result_kept.{kind}", z3.And(z3.BoolVal(not A.shares_memory(r1, r2) and not A.shares_memory(r1, raw)),
+                          A.forall(idx, lambda: z3.Implies(rng_, r1.read(tuple(idx)) == first(tuple(idx))))), "post",
+                          "the array returned by the first read is not modified by the second read of the same reader", assume=False)
+        S3.explore(body3)
     S2 = H.session("closed")
 
     def body2(it):
@@ -375,6 +398,15 @@ def b_native(B):
             ok = got is not None and np.shape(got) == np.shape(V[item]) and np.array_equal(got, V[item])
             B.case(("bare_list", repr(item)), ok, detail=f"sr[{item!r}] -> {None if got is None else np.shape(got)} instead of rows {item!r}",
                    inputs={"kind": "bare_list", "n": len(item)})
+        # results held while the same reader reads again (same number of samples): single channel, channel list, whole frame, single sample
+        held = []
+        for nsel, csel in ((slice(5, 25), 3), (slice(5, 25), [3, 9]), (slice(5, 25), slice(None)), (7, 3), (slice(5, 25), 380)):
+            got = sr[nsel, csel]
+            held.append((nsel, csel, got, np.array(got, copy=True)))
+            sr[slice(25, 45), csel]
+            sr.read(slice(25, 45), csel)
+        stale = [(repr(n_), repr(c_)) for n_, c_, g_, cp_ in held if not (np.array_equal(g_, cp_) and np.array_equal(cp_, V[n_, c_]))]
+        B.case("results_kept_across_later_reads", not stale, detail=stale[:4])
         sr.close()
     finally:
         shutil.rmtree(d, ignore_errors=True)
